@@ -46,6 +46,10 @@ class SimSock(object):
     def recv(self, n=8192, flags=0):
         if self.closed:
             raise OSError(errno.EBADF, "Bad file descriptor")
+        if not self.blocking and self.cid not in self.sim.flagged:
+            # a pool thread reading from a non-blocking socket gets EAGAIN as soon as a request arrives in two pieces
+            self.sim.flagged.add(self.cid)
+            self.sim.V("served-when-thread-free", "handler-reads-from-non-blocking-socket", {"cid": self.cid, "requests_so_far": self.request_count})
         if self.buf:
             d, self.buf = self.buf[:n], self.buf[n:]
             return d
